@@ -190,13 +190,24 @@ pub struct Recorder {
     pub closures_record: bool,
     /// recording switched off while the harness probes the context
     pub enabled: bool,
+    /// the evaluation made more than SEAM_CALL_BUDGET seam calls
+    pub over_budget: bool,
 }
+
+/// No evaluation of a generated program comes near this many seam calls; a library that needs more
+/// (an error path that re-evaluates sub-expressions, nested) is stopped by a panic from the seam,
+/// which the harness catches and reports - instead of running out of memory or time.
+pub const SEAM_CALL_BUDGET: usize = 50_000;
 
 impl Recorder {
     /// Records the event; returns `Some(index)` if the fault plan fails this seam call.
     #[inline]
     fn record(&mut self, ev: Ev, kind: FaultKind) -> Option<usize> {
         let idx = self.log.len();
+        if idx >= SEAM_CALL_BUDGET {
+            self.over_budget = true;
+            return None;
+        }
         self.log.push(ev);
         if self.faults.binary_search(&idx).is_ok() {
             self.fired.push((idx, kind));
@@ -209,6 +220,36 @@ impl Recorder {
 
 pub type Rec = Arc<Mutex<Recorder>>;
 
+/// Total string bytes in a value.
+pub fn value_size(v: &V) -> usize {
+    match v {
+        Value::String(s) => s.len(),
+        Value::Tuple(t) => t.iter().map(value_size).sum::<usize>() + t.len(),
+        _ => 1,
+    }
+}
+
+/// No generated program builds a value near this size; a library that does (effects repeated on
+/// an error path, doubling a string each time) is stopped by a panic from the seam before the
+/// process runs out of memory.
+pub const VALUE_SIZE_BUDGET: usize = 4 << 20;
+
+#[inline]
+fn stop_if_huge(v: &V) {
+    if value_size(v) > VALUE_SIZE_BUDGET {
+        panic!("value size budget exceeded: a value of more than {} bytes crossed the context seam", VALUE_SIZE_BUDGET);
+    }
+}
+
+/// Called by the seam after it released the recorder: unwinds out of a runaway evaluation.
+#[inline]
+fn stop_if_over_budget(rec: &Rec) {
+    let over = rec.lock().map(|r| r.over_budget).unwrap_or(false);
+    if over {
+        panic!("seam call budget exceeded: more than {} context calls in one evaluation", SEAM_CALL_BUDGET);
+    }
+}
+
 /// A user function registered under `name` with the sentinel behaviour `behaviour`.
 pub fn recording_function(
     name: String,
@@ -216,6 +257,7 @@ pub fn recording_function(
     rec: Rec,
 ) -> Function<DefaultNumericTypes> {
     Function::new(move |arg: &V| {
+        stop_if_huge(arg);
         {
             let mut r = rec.lock().unwrap();
             if r.enabled && r.closures_record {
@@ -226,6 +268,7 @@ pub fn recording_function(
                 }
             }
         }
+        stop_if_over_budget(&rec);
         Ok(sentinel(behaviour, arg))
     })
 }
@@ -266,6 +309,9 @@ pub fn counter_function(name: String, rec: Option<Rec>) -> Function<DefaultNumer
                 }
             }
         }
+        if let Some(rec) = &rec {
+            stop_if_over_budget(rec);
+        }
         // (method calls, so that the closure captures the whole struct and clones it by value)
         let n = if *arg == Value::Int(PROBE_ARG) {
             state.peek()
@@ -290,6 +336,9 @@ pub struct Setup {
     pub vars: Vec<(String, V)>,
     pub fns: Vec<String>,
     pub builtins_disabled: bool,
+    /// the context is not fresh: this many user-function calls have already failed on it (no
+    /// observable state changes; a long-lived context must behave like a fresh one)
+    pub aging: usize,
 }
 
 impl Setup {
@@ -310,6 +359,7 @@ impl Setup {
             )
             .with("fns", Json::arr_of_str(self.fns.iter().cloned()))
             .with("builtins_disabled", Json::Bool(self.builtins_disabled))
+            .with("failed_calls_before", Json::u(self.aging as u64))
     }
 
     pub fn from_json(j: &Json) -> Result<Setup, String> {
@@ -328,6 +378,7 @@ impl Setup {
             vars,
             fns,
             builtins_disabled: j.bool_field("builtins_disabled")?,
+            aging: j.get("failed_calls_before").and_then(|a| a.as_u64()).unwrap_or(0) as usize,
         })
     }
 
@@ -349,6 +400,34 @@ impl Setup {
         }
         ctx.set_builtin_functions_disabled(self.builtins_disabled)
             .expect("setup: builtin switch");
+        if self.aging > 0 {
+            if let Some(f) = self.fns.first() {
+                // every one of these calls fails with an injected error; nothing is recorded
+                let saved = {
+                    let mut r = rec.lock().unwrap();
+                    let saved = (
+                        std::mem::take(&mut r.log),
+                        std::mem::take(&mut r.faults),
+                        r.enabled,
+                        r.closures_record,
+                    );
+                    r.faults = (0..self.aging).collect();
+                    r.enabled = true;
+                    r.closures_record = true;
+                    saved
+                };
+                let arg = Value::Int(1);
+                for _ in 0..self.aging {
+                    let _ = ctx.call_function(f, &arg);
+                }
+                let mut r = rec.lock().unwrap();
+                r.log = saved.0;
+                r.faults = saved.1;
+                r.enabled = saved.2;
+                r.closures_record = saved.3;
+                r.fired.clear();
+            }
+        }
         ctx
     }
 }
@@ -372,10 +451,12 @@ impl Context for SimContext {
                 return None;
             }
         }
+        stop_if_over_budget(&self.rec);
         self.inner.get_value(identifier)
     }
 
     fn call_function(&self, identifier: &str, argument: &V) -> R {
+        stop_if_huge(argument);
         {
             let mut r = self.rec.lock().unwrap();
             if r.enabled {
@@ -387,6 +468,7 @@ impl Context for SimContext {
                 }
             }
         }
+        stop_if_over_budget(&self.rec);
         self.inner.call_function(identifier, argument)
     }
 
@@ -401,6 +483,7 @@ impl Context for SimContext {
 
 impl ContextWithMutableVariables for SimContext {
     fn set_value(&mut self, identifier: String, value: V) -> Result<(), E> {
+        stop_if_huge(&value);
         {
             let mut r = self.rec.lock().unwrap();
             if r.enabled {
@@ -411,6 +494,7 @@ impl ContextWithMutableVariables for SimContext {
                 }
             }
         }
+        stop_if_over_budget(&self.rec);
         self.inner.set_value(identifier, value)
     }
 }
@@ -632,6 +716,7 @@ pub fn run_real(
         fired: Vec::new(),
         closures_record: kind == CtxKind::Bare,
         enabled: false,
+        over_budget: false,
     }));
     let entry = if src.is_none() { Entry::Tree } else { entry };
     let enable = |on: bool| rec.lock().unwrap().enabled = on;
